@@ -209,8 +209,62 @@ let observe oc (e : med) =
     Printf.fprintf oc "O display=%s tiling=%s %s user=%s\n" (cps disp) (b01 tiles) cands (user_str e.sh.dict)
   with Oracle_underflow -> Printf.fprintf oc "O PANIC\n"
 
+(* C03: validate every alternative the engines returned for directly built compositions *)
+let conv_main trace out =
+  let ic = open_in trace in
+  let oc = open_out out in
+  let sys = ref [] and usr = ref [] in
+  let comp : composition option ref = ref None in
+  (try
+     while true do
+       let line = input_line ic in
+       let tag, rest =
+         match String.index_opt line ' ' with
+         | Some i -> (String.sub line 0 i, String.sub line (i + 1) (String.length line - i - 1))
+         | None -> (line, "")
+       in
+       match tag with
+       | "CASE" -> Printf.fprintf oc "CASE %s\n" (String.trim rest); sys := []; usr := []; comp := None
+       | "SYS" ->
+           (match split '|' rest with
+            | [ k; t; f ] ->
+                let k = ns_of '.' k and t = ns_of '.' t in
+                if not (Stdlib.List.exists (fun (((k', t'), _), _) -> k' = k && t' = t) !sys) then
+                  sys := bt_insert (((k, t), n_of_int (int_of_string f)), n_of_int 0) !sys
+            | _ -> failwith "SYS")
+       | "USR" ->
+           (match split '|' rest with
+            | [ k; t; f; tm ] ->
+                usr := bt_insert (((ns_of '.' k, ns_of '.' t), n_of_int (int_of_string f)), n_of_int (int_of_string tm)) !usr
+            | _ -> failwith "USR")
+       | "COMP" ->
+           let fs = split ' ' rest in
+           let syms = Stdlib.List.map parse_sym (Stdlib.List.filter (fun x -> x <> "") (split ',' (field "syms" fs))) in
+           let gaps =
+             Stdlib.List.map (function "B" -> GBegin | "K" -> GBreak | "G" -> GGlue | _ -> GNormal)
+               (Stdlib.List.filter (fun x -> x <> "") (split ',' (field "gaps" fs)))
+           in
+           comp := Some { symbols = syms; gaps; selections = parse_intervals (field "sels" fs) }
+       | "ALT" ->
+           (match (split ' ' rest, !comp) with
+            | k :: ivs, Some c when (match ivs with "PANIC" :: _ -> false | _ -> true) ->
+                let ivs = parse_intervals (String.concat " " ivs) in
+                let d = { md_sys = !sys; md_user = !usr; md_grave = [] } in
+                let e0 = m_init d [] { ss_category = []; ss_table = []; ss_cursor = None } (n_of_int 0) in
+                let e = m_set_engine e0 (match int_of_string k with 0 -> EngSimple | 1 -> EngChewing | _ -> EngFuzzy) in
+                Printf.fprintf oc "V %s valid=%s tiling=%s\n" k (b01 (m_valid_conv e c ivs)) (b01 (Conversion.tiling_ok c ivs))
+            | k :: _, _ -> Printf.fprintf oc "V %s PANIC\n" k
+            | _ -> ())
+       | _ -> ()
+     done
+   with End_of_file -> ());
+  close_in ic;
+  close_out oc;
+  0
+
 let main args =
   match args with
+  | [ "conv"; trace; out ] -> conv_main trace out
   | [ trace; out ] ->
       let ic = open_in trace in
       let oc = open_out out in
